@@ -9,6 +9,17 @@ from collections import deque
 from .facts import KIND, callee, callee_def
 
 
+def _norm_ty(t):
+    t = (t or "").strip()
+    while t.startswith("&"):
+        t = t[1:].strip()
+        if t.startswith("'"):
+            t = t.split(" ", 1)[1] if " " in t else t
+        if t.startswith("mut "):
+            t = t[4:]
+    return t.replace("mimium_lang::", "")
+
+
 class CallGraph:
     def __init__(self, facts, crates):
         self.facts = facts
@@ -23,6 +34,14 @@ class CallGraph:
             if tr and f.kind == "assoc":
                 m = p.rsplit("::", 1)[1]
                 self.trait_impls.setdefault((tr, m), []).append(p)
+        # instantiations of generic functions: callee path -> set of first generic argument types seen at call sites
+        self.inst = {}
+        for p, f in self.fns.items():
+            for b, t in f.calls():
+                c = t[4]
+                if "def" in c and c.get("a0"):
+                    tgt = c["inst"] or c["def"]
+                    self.inst.setdefault(tgt, set()).add(_norm_ty(c["a0"]))
         self.edges = {}
         self.unknown = {}
         self.closures = {}
@@ -62,7 +81,15 @@ class CallGraph:
                 d = c["def"]
                 if "::" in d:
                     tr, m = d.rsplit("::", 1)
-                    for imp in self.trait_impls.get((tr, m), ()):
+                    impls = self.trait_impls.get((tr, m), ())
+                    a0 = c.get("a0") or ""
+                    if impls and a0 and "::" not in a0 and a0.lstrip("&").strip()[:1].isupper() and len(a0.lstrip("&").strip()) <= 2:
+                        # the receiver is a bare type parameter of the enclosing generic function: only the types it is
+                        # instantiated with anywhere in the workspace can be the receiver
+                        insts = self.inst.get(f.root) or self.inst.get(f.path)
+                        if insts:
+                            impls = [i for i in impls if _norm_ty(self.fns[i].d.get("self_ty", "")) in insts]
+                    for imp in impls:
                         add(imp, f.where(t))
         # closures defined directly in f
         for cl in self.closures.get(f.path, ()):
